@@ -10,7 +10,7 @@ from . import ants_mp as mp
 PROP = "C07"
 KINDS_QUICK = [("retry-outcomes", "retry", 2400), ("burst-discard", "burst", 1200), ("deadline-ties(allowed-set)", "ties", 1200),
                ("non-cooperative", "stubborn", 400), ("cancelled-dispatcher-context", "pcancel", 1200),
-               ("retry-until-success(huge R)", "hugeR", 200),
+               ("retry-until-success(huge R)", "hugeR", 200), ("sub-millisecond-timeouts", "tinyT", 300),
                # several pools in one process, literal option lists (defaults omitted, non-positive values): ants_mp.py
                ("multi-pool-option-lists", "mp:mixed", 600)]
 
